@@ -1304,6 +1304,14 @@ func (x *c10Run) enumTimeouts(w *c10World, opt c10Opt) {
 	for _, a := range aggs[1:] {
 		sis = append(sis, sv{"agg=" + a.name, &hotstuffpb.SyncInfo{AggQC: a.agg}})
 	}
+	// with aggregate QCs a timeout must report a QC to be accepted: the genesis QC plus one more part
+	gqc := hotstuffpb.QuorumCertToProto(w.qcs[0])
+	for _, tc := range tcs[1:] {
+		sis = append(sis, sv{"qc=genesis tc=" + tc.name, &hotstuffpb.SyncInfo{QC: gqc, TC: tc.tc}})
+	}
+	for _, a := range aggs[1:] {
+		sis = append(sis, sv{"qc=genesis agg=" + a.name, &hotstuffpb.SyncInfo{QC: gqc, AggQC: a.agg}})
+	}
 	i := 0
 	for _, tv := range []hotstuff.View{cur, cur + 1, 0} {
 		vsigs := x.sigVariants(w, tv.ToBytes(), hotstuff.View(6).ToBytes(), tv != cur)
@@ -1478,7 +1486,7 @@ func (x *c10Run) decoders(w *c10World) {
 		sit, _ := r.osyncTerm(si)
 		call(fmt.Sprintf("SyncInfoFromProto(sig #%d)", i), "(DSync "+sit+")", func() { hotstuffpb.SyncInfoFromProto(si) })
 		tm := &hotstuffpb.TimeoutMsg{View: 2, SyncInfo: si, ViewSig: sg}
-		call(fmt.Sprintf("TimeoutMsgFromProto(sig #%d)", i), fmt.Sprintf("(DTimeout (Some (TM 2 %s %s None)))", sit, st), func() { hotstuffpb.TimeoutMsgFromProto(tm) })
+		call(fmt.Sprintf("TimeoutMsgFromProto(sig #%d)", i), fmt.Sprintf("(DTimeout (Some (TM 2 %s %s None F F F)))", sit, st), func() { hotstuffpb.TimeoutMsgFromProto(tm) })
 		b := &hotstuffpb.Block{QC: q, View: 4}
 		call(fmt.Sprintf("BlockFromProto(qc sig #%d)", i), fmt.Sprintf("(DBlock (Some (BL %s 4 F F)))", qt), func() { hotstuffpb.BlockFromProto(b) })
 		call(fmt.Sprintf("ProposalFromProto(qc sig #%d)", i), fmt.Sprintf("(DProposal (Some (PR (Some (BL %s 4 F F)) %s)))", qt, at), func() { hotstuffpb.ProposalFromProto(&hotstuffpb.Proposal{Block: b, AggQC: a}) })
